@@ -41,6 +41,8 @@ JsOK(e) ==
   /\ (NewFeatures(e.fi, e.fo) \cap ex # {} \/ JsEditionOK(e.pvi, e.pvo, e.o.Version)) \/ Reject(l, "Version (edition)")
   /\ e.o.KeepVarNames => (JsKeepVarNamesOK(e.idi, e.ido, e.dci, e.dco) \/ Reject(l, "KeepVarNames"))
   /\ IsSuite(e) \/ JsPrecisionOK(e.ni, e.o.Precision, e.no) \/ Reject(l, "Precision")
+  /\ (e.o.Precision # 0 /\ ~IsSuite(e)) =>
+       (JsPrecisionOnlyOK(e.ni, e.o.Precision, e.nos, e.no0, e.sk, e.sk0) \/ Reject(l, "Precision (nothing else)"))
 
 LineOK(e) ==
   /\ ~e.panic \/ Reject(l, "panic")
